@@ -59,7 +59,9 @@ def main() -> int:
     suffix = "" if ck.quick else "_thorough"
     # M
     if not replay:
-        ck.model_check("MC_Lexers", "MC_Lexers.cfg", "lexer machines: totality, mode discipline, stack discipline, error absorbing", workers=8, jvm=JVM, timeout=600)
+        ck.model_check("MC_Lexers", "MC_Lexers.cfg", "lexer machines (all special units, bounded depth): totality, mode discipline, error absorbing, skeleton lemmas", workers=8, jvm=JVM, timeout=900)
+        if not ck.quick:
+            ck.model_check("MC_Lexers", "MC_Lexers_deep.cfg", "lexer machines (literal and escape units, unbounded depth)", workers=8, jvm=JVM, timeout=900)
         ck.model_check("MC_LexCanon", "MC_LexCanon%s.cfg" % suffix, "Decode(kind, Canon(kind, s)) = Expected(kind, s)", workers=8, jvm=JVM, timeout=600)
     # G
     cases_p = ck.work / "cases.json"
@@ -94,7 +96,7 @@ def main() -> int:
                 nontrivial += int(m.group(2))
                 s_checked += int(m.group(3))
         for v in res.violations:
-            i = int(res.var_of(v, "i") or "0")
+            i = int(re.match(r"\s*(\d+)", res.var_of(v, "i") or "0").group(1))
             o = part[i - 1]
             if v["invariant"] == "Inv_SpecAgreesWithCompiler":
                 raise core.MachineryFailure(
@@ -113,7 +115,7 @@ def main() -> int:
             ck.tlc("LexDiag", what="diagnosis of wrong literals", env={"VERIF_OBS": str(bp), "VERIF_OUT": str(dp)}, count=False, jvm=JVM, timeout=900)
             diags.extend(core.read_json(dp))
         for o, d in zip(bad, diags):
-            key = {"emitter": o["emitter"], "cause": d["cause"] + (": " + d["why"] if d["why"] else ""), "at": d["at"], "next": d["next"]}
+            key = {"family": o["emitter"].split("[")[0], "emitter": o["emitter"], "cause": d["cause"] + (": " + d["why"] if d["why"] else ""), "at": d["at"], "next": d["next"]}
             ck.violation(
                 key,
                 "Inv_Denotes",
@@ -122,7 +124,7 @@ def main() -> int:
                 detail="%s(%s) = %s : %s%s" % (o["emitter"], show(o["orig"]), show(o["text"]), d["cause"], (" (" + d["why"] + ")") if d["why"] else ""),
             )
     for o in other:
-        key = {"emitter": o["emitter"], "cause": o["invariant"], "at": o["exc"].split(":")[0] if o["exc"] else "", "next": ""}
+        key = {"family": o["emitter"].split("[")[0], "emitter": o["emitter"], "cause": o["invariant"], "at": o["exc"].split(":")[0].split(" at ")[0] if o["exc"] else "", "next": ""}
         ck.violation(key, o["invariant"], {"emitter": o["emitter"], "kind": o["kind"], "orig": core.from_cps(o["orig"]), "what": o["what"]}, {"outcome": o["outcome"], "exc": o["exc"]}, detail="%s(%s): %s %s" % (o["emitter"], show(o["orig"]), o["outcome"], o["exc"]))
     ck.cov["evaluations"] = len(obs)
     ck.cov["traces_validated_against_impl"] = len(obs)
